@@ -1,7 +1,8 @@
 /-
   drv_names — JSON line driver over Spydr.Names.{Model,ModelOld,Spec}.
   Requests (one JSON object per line):
-    {"fn":"prepass","sibs":[{"name":s,"ident":s|null,"rename":b}], "rules":[b,b,b,b]?}
+    {"fn":"prepass","sibs":[{"name":s,"ident":s|null,"rename":b}], "rules":[b,b,b,b]?, "cables":b?}
+        (answer also carries "fragments": theorem -> "in" | first failing hypothesis; reporting only)
         -> {"out":[{"ident":s,"rename":b,"assigned":b}], "finished":b, "scopeOk":b, "distinct":b, "repEq":b}
     {"fn":"makeValid","name":s,"others":[sib..], "rules":[..]?} -> {"id":s,"finished":b,"repEq":b}
     {"fn":"check","ids":[s..]} -> {"ok":[b..]}
@@ -14,6 +15,7 @@ import Spydr.Names.Model
 import Spydr.Names.ModelOld
 import Spydr.Names.Spec
 import Spydr.Names.ModelObs
+import Spydr.Names.ModelReach
 
 open Lean Spydr.Proto Spydr.Names
 
@@ -90,6 +92,8 @@ def handle (st : Unit) (j : Json) : Except String (Unit × Json) := do
         ("scopeOk", Json.bool (Spec.scopeOk obs)),
         ("distinct", Json.bool (Spec.identsDistinct obs)),
         ("nets", Json.arr ((emittedNetIdents out).map str).toArray),
+        ("fragments", Json.mkObj ((Reach.fragments ((j.getObjVal? "cables").toOption == some (Json.bool true)) sibs rep).map
+          fun (t, r) => (t, Json.str r))),
         ("netsDistinct", Json.bool (Spec.allDistinct (Spec.netIdents obs))),
         ("repEq", Json.bool (decide (Old.assignAll Old.Rules.repaired sibs = rep)))])
   | "makeValid" =>
